@@ -1323,7 +1323,7 @@ fn main() {
             },
         );
     }
-    let depth = ctx.pick(4, 6);
+    let depth = ctx.pick(4, 8);
     let inits = vec![
         pair_of(Obj::V(vecr(3, 0))),
         pair_of(Obj::M(matr(2, 3, 0))),
